@@ -850,6 +850,16 @@ def bi_trig(st, args, kw):
     return E.mk_bool(f(v.z))
 
 
+def bi_same(st, args, kw):
+    """same(a, b): identical values (object identity for references, also inside tuples)"""
+    a, b = args
+    if a.t.kind in ('seq',) or b.t.kind in ('seq',):
+        return E.mk_bool(z3.And(a.z.n == b.z.n, a.z.arr == b.z.arr))
+    if a.t != b.t:
+        b = st.coerce(b, a.t)
+    return E.mk_bool(a.z == b.z)
+
+
 def bi_mkseq(st, args, kw):
     a, n = args
     return Val(T.TSeq(a.t.args[1]), SeqV(a.z, n.z))
@@ -898,7 +908,7 @@ def bi_dict(st, args, kw):
 
 
 _BUILTINS = {
-    'mkseq': bi_mkseq, 'trig': bi_trig, 'is_list': bi_is_list, 'store': bi_store, 'dict_has': bi_dict_has,
+    'mkseq': bi_mkseq, 'trig': bi_trig, 'same': bi_same, 'is_list': bi_is_list, 'store': bi_store, 'dict_has': bi_dict_has,
     'dict_get': bi_dict_get, 'dict_keys': bi_dict_keys, 'dict': bi_dict,
     'len': bi_len, 'set': bi_set, 'list': bi_list, 'tuple': bi_tuple, 'min': bi_min, 'max': bi_max,
     'seq': bi_seq, 'setv': bi_setv, 'set_of': bi_set_of, 'sorted_by': bi_sorted_by,
